@@ -7,6 +7,13 @@ from .front import AnalysisBroken
 
 class Program:
     def __init__(self, units, config='default'):
+        # new static helpers (names the rules were not written against) are spliced back into their callers first
+        from . import inline
+        units = {up: dict(u, functions=dict(u['functions'])) for up, u in units.items()}
+        self.spliced = 0
+        for up, u in units.items():
+            if up.startswith('src/'):          # witness units and the header are analysed as written
+                self.spliced += inline.splice_new_helpers(u['functions'])
         self.units = units
         self.config = config
         self.functions = {}          # name -> fn (with 'unit')
